@@ -6,6 +6,7 @@ mod c08;
 mod c10;
 mod c11;
 mod c19;
+mod c20;
 mod consumer;
 mod c12;
 mod c13;
@@ -63,6 +64,7 @@ fn main() {
         "c08worker" => c08::worker(&args[2], &args[3]),
         "c07" => c07::run(&out, &tier, seed, shards, replay),
         "c19" => c19::run(&out, &tier, seed, shards, replay),
+        "c20" => c20::run(&out, &tier, seed, shards, replay),
         "c11" => c11::run(&out, &tier, seed, shards, replay),
         other => {
             eprintln!("unknown command {}", other);
